@@ -176,12 +176,13 @@ def gen_op(rng, k, recipe, iterative, allow, p_each):
     if k == "train_steps":
         return {"op": k, "k": rng.randint(1, 3), "opt": rng.choice(["sgd", "adam"]), "lr": rng.choice([0.05, 0.2])}
     if k == "set_train_data":
-        kinds = ["same", "targets_only", "inputs_only", "newshape"]
+        # inplace: the caller overwrites the very tensors the model holds (a pre-allocated buffer) and passes them again
+        kinds = ["same", "targets_only", "inputs_only", "newshape", "inplace", "inplace"]
         if fam == "grid":
-            kinds = ["targets_only"]
+            kinds = ["targets_only", "inplace"]
         return {"op": k, "kind": rng.choice(kinds), "seed": rng.randrange(1 << 30), "n": rng.randint(3, 8), "strict": rng.random() < 0.5}
     if k == "load_state_dict":
-        return {"op": k, "src": rng.choice(["rand", "snap"]), "seed": rng.randrange(1 << 30), "which": rng.randrange(4), "scope": rng.choice(["all", "all", "likelihood", "kernel", "one"]), "pick": rng.randrange(1 << 16)}
+        return {"op": k, "src": rng.choice(["rand", "snap"]), "seed": rng.randrange(1 << 30), "which": rng.randrange(4), "scope": rng.choice(["all", "all", "likelihood", "kernel", "one"]), "pick": rng.randrange(1 << 16), "grid_shift": rng.random() < 0.4}
     if k == "fantasize":
         return {"op": k, "seed": rng.randrange(1 << 30), "m": rng.randint(1, 3), "bundle": bundles.gen_bundle(rng, recipe["n"] + 2, allow=allow, p_each=p_each * 0.5)}
     if k == "backward":
@@ -516,7 +517,17 @@ def step(ctx, i, op):
             out.stats["skipped:perturb_in_eval"] += 1
             tag = "skipped"
     elif k == "set_train_data":
-        inputs, targets, fixed = new_train_data(recipe, op, M)
+        if op["kind"] == "inplace":
+            nx, ny, _ = new_train_data(recipe, dict(op, kind="same"), M)
+            with torch.no_grad():
+                if recipe["family"] != "grid":
+                    for cur_t, new_t in zip(M.train_inputs, nx):
+                        cur_t.copy_(new_t)
+                M.train_targets.copy_(ny)
+            inputs, targets, fixed = tuple(M.train_inputs), M.train_targets, None
+            out.stats["probe:set_train_data_same_tensor_objects"] += 1
+        else:
+            inputs, targets, fixed = new_train_data(recipe, op, M)
         strict = op["strict"] and op["kind"] != "newshape"
         if fixed is not None:
             M.likelihood.noise = fixed
@@ -533,7 +544,12 @@ def step(ctx, i, op):
                 out.stats["skipped:snapshot_shape_changed"] += 1
                 return
         else:
-            donor = zoo.build_exact(recipe, data=_cur_data(M, recipe))
+            r_donor = recipe
+            if op.get("grid_shift") and recipe["family"] == "kissgp" and recipe.get("grid_bounds") and op.get("scope", "all") == "all":
+                # a checkpoint of the same architecture with another (fixed) interpolation grid: same shapes, other buffers
+                r_donor = dict(recipe, grid_bounds=[[lo - 0.2, hi + 0.3] for lo, hi in recipe["grid_bounds"]])
+                out.stats["probe:load_state_dict_other_grid"] += 1
+            donor = zoo.build_exact(r_donor, data=_cur_data(M, recipe))
             zoo.randomise_parameters(donor, op["seed"])
             # a donor that has been used once, like a trained model: buffers that are created lazily (RFF weights of a
             # kernel built without num_dims, a dynamic KISS-GP grid) exist in its state dict
